@@ -166,7 +166,11 @@ func (f *Frame) frameCheckCall(in ssa.Instruction, ct *Contract, callee *ssa.Fun
 				cs = append(cs, ok)
 				continue
 			}
-			cs = append(cs, f.allowedWrite(t.heap, t.ref, t.lo, t.hi))
+			aw := f.allowedWrite(t.heap, t.ref, t.lo, t.hi)
+			if t.cond != "" {
+				aw = implies(t.cond, aw)
+			}
+			cs = append(cs, aw)
 		}
 		e.oblige("frame", name+":"+m.Text, f.frameProps(), g, and(cs...), f.pos(in.Pos()), "")
 	}
